@@ -31,7 +31,7 @@ loader.exec_module(chk)
 # C18 only: performance rewrites of parser functions introduce panic-capable sites (string slices by byte index, new index
 # helpers, loops driven by helper results) that neither the bounds prover nor a reviewed entry discharges (DESIGN 7)
 SAME_FINDING_ELSEWHERE = "C20/R5/own-production(SFunction via check_arithmetic_infix) also in "
-KNOWN_LIMIT = {("ref-R43", "C18"), ("ref-R45", "C18"), ("ref-R46", "C18"), ("ref-R55", "C18"), ("ref-R56", "C18"), ("ref-R83", "C18"),
+KNOWN_LIMIT = {("ref-R43", "C18"), ("ref-R45", "C18"), ("ref-R46", "C18"), ("ref-R55", "C18"), ("ref-R56", "C18"), ("ref-R83", "C18"), ("ref-R93", "C18"),
                # the three list walks rewritten as one iterator struct (`ListWalk`) and the constructor driven by `terms.len()`
                ("ref-R81", "C16"), ("ref-R81", "C17")}
 
